@@ -63,13 +63,42 @@ fn ref_children<'a>(r: &Ref<'a>) -> Vec<Ref<'a>> {
         let mut guard = 0;
         while !it.is_empty() && guard < 1_000_000 {
             guard += 1;
-            if let Some(x) = it.next() {
+            // what `peek` shows is what `next` then yields: same value, same span
+            let peeked = it.peek().map(|p| (span_of(p.span()), p.value() as *const lexpr::Value));
+            let got = it.next();
+            let yielded = got.as_ref().map(|x| (span_of(x.span()), x.value() as *const lexpr::Value));
+            if peeked != yielded {
+                PEEK_MISMATCH.with(|m| {
+                    if m.borrow().is_none() {
+                        *m.borrow_mut() = Some(format!(
+                            "list_iter: peek() showed {:?} but next() yielded {:?} at step {} of {}",
+                            peeked.map(|p| p.0),
+                            yielded.map(|y| y.0),
+                            guard,
+                            r.value()
+                        ));
+                    }
+                });
+            }
+            if let Some(x) = got {
                 out.push(x);
             }
         }
         return out;
     }
     Vec::new()
+}
+
+thread_local! {
+    /// Set by `ref_children` when `ListIter::peek` and `next` disagree; taken by the checks after their walks.
+    static PEEK_MISMATCH: std::cell::RefCell<Option<String>> = std::cell::RefCell::new(None);
+}
+
+fn take_peek_mismatch() -> Result<(), (String, String)> {
+    match PEEK_MISMATCH.with(|m| m.borrow_mut().take()) {
+        Some(msg) => Err(("accessor=list_iter which=peek-differs-from-next".into(), msg)),
+        None => Ok(()),
+    }
 }
 
 fn node_children(n: &Node) -> Vec<&Node> {
@@ -226,9 +255,11 @@ pub fn check_case(c: &Case) -> CaseResult {
         for (src, r) in &sources {
             let d = r.as_ref().unwrap();
             let mut w = Walk { text: &text, q, src, nodes: 0, shorthand: false, dotted: false };
+            let _ = take_peek_mismatch();
             w.check(d.as_ref(), &l.root, None, None)?;
             let mut flat = Vec::new();
             flat_spans(d.as_ref(), &mut flat);
+            take_peek_mismatch()?;
             // owned copies carry the same spans: the whole datum cloned, and
             // every direct sub-datum turned into a datum of its own
             {
@@ -520,6 +551,7 @@ pub fn check_raw(c: &RawCase) -> CaseResult {
                 "reader" => walk!(lexpr::Parser::from_reader_custom(Cursor::new(input), opts)),
                 _ => walk!(lexpr::Parser::from_reader_custom(BufReader::with_capacity(3, Cursor::new(input)), opts)),
             }
+            take_peek_mismatch().map_err(|(s0, m)| (format!("raw src={} {}", src, s0), m))?;
             nodes = nodes.max(w.nodes);
             if src == "slice" {
                 slice_flat = flat.clone();
